@@ -330,7 +330,7 @@ func saveCounterexample(decls string, in *instance, dir, fkey, name string) (str
 // solveCovers checks reachability of behaviours / satisfiability of preconditions.
 func solveCovers(fr *FuncResult, opts SolveOpts) map[string]string {
 	out := map[string]string{}
-	decls := fr.Decls.Text()
+	_ = fr.Decls
 	var mu sync.Mutex
 	var wg sync.WaitGroup
 	sem := make(chan struct{}, opts.Workers)
@@ -342,15 +342,24 @@ func solveCovers(fr *FuncResult, opts SolveOpts) map[string]string {
 			defer wg.Done()
 			defer func() { <-sem }()
 			status := "unreachable"
+			isQF := func(t string) bool { return !strings.Contains(t, "(forall ") && !strings.Contains(t, "(exists ") }
+			qfDecls := fr.Decls.TextQF()
 			for k, ci := range cis {
+				// quantifier-free relaxation: unsat here means the behaviour cannot be reached on this path
 				var b strings.Builder
-				b.WriteString(decls)
+				b.WriteString(qfDecls)
 				for _, t := range ci.PC {
-					fmt.Fprintf(&b, "(assert %s)\n", t.S)
+					if isQF(t.S) {
+						fmt.Fprintf(&b, "(assert %s)\n", t.S)
+					}
 				}
-				fmt.Fprintf(&b, "(assert %s)\n(check-sat)\n", ci.Cond.S)
-				ls, _, _ := runSolver("z3-new", b.String(), 1500, 1, opts.WorkDir, fmt.Sprintf("%s.cover%s.%d", sanitize(fr.Key), sanitize(name), k))
-				files, _ := filepath.Glob(filepath.Join(opts.WorkDir, fmt.Sprintf("%s.cover%s.%d.*", sanitize(fr.Key), sanitize(name), k)))
+				if isQF(ci.Cond.S) {
+					fmt.Fprintf(&b, "(assert %s)\n", ci.Cond.S)
+				}
+				b.WriteString("(check-sat)\n")
+				tag := fmt.Sprintf("%s.cover%s.%d", sanitize(fr.Key), sanitize(name), k)
+				ls, _, _ := runSolver("z3-new", b.String(), 1500, 1, opts.WorkDir, tag)
+				files, _ := filepath.Glob(filepath.Join(opts.WorkDir, tag+".*"))
 				for _, f := range files {
 					os.Remove(f)
 				}
